@@ -717,9 +717,22 @@ func (c *simCluster) newlyDone() []interface{} {
 				m["pos"] = int(v)
 			}
 		}
+		st.res = fmt.Sprint(m["err"])
 		out = append(out, m)
 	}
 	return out
+}
+
+// outcomeNow: what a client reading the completed task NOW is told
+func (st *simTask) outcomeNow() string {
+	if err := st.t.Err(); err != nil {
+		k := errKind(err)
+		if st.kind == "changeConfig" && k == "other" {
+			k = "invalid"
+		}
+		return k
+	}
+	return "ok"
 }
 
 func errKind(err error) string {
